@@ -73,6 +73,9 @@ type EncSpec struct {
 	// RecipRaw and To) at the other location: detached sibling when the main one is embedded, embedded otherwise.
 	Extra    *EncSpec
 	extraXML string
+	// InContext: the plaintext is the assertion's exact octets as they stand inside the plaintext twin of the Response
+	// (namespace prefixes declared on the Response are not repeated), not a self-contained fragment.
+	InContext bool
 }
 
 func (e *EncSpec) String() string {
